@@ -13,7 +13,7 @@ LEVEL_TEXT = ("Static structural proof of necessary conditions: (R3.1) the regis
               "(R3.2) the remainder returned by the resolver is a slice of the original-case text, never of the "
               "case-folded working copy (integer indices excepted). Identity of the resolved node for every spelling, "
               "inverse/idempotent conversions and takes-value switching are NOT decided.")
-LEVEL_EXTRA = 'Added after the seeded evaluation: (R3.3) namespace prefixes are removed by length, never with the character-set strip family.'
+LEVEL_EXTRA = 'Added after the seeded evaluation: (R3.3) namespace prefixes are removed by length, never with the character-set strip family. (R3.4) the tag resolver takes no position (find/len/slice/split) on a case-folded copy of the tag.'
 
 
 def _value_tainted(expr, tainted_names):
@@ -128,7 +128,7 @@ def run(ctx):
                 normalisation(rd, n.value, n) & {"casefold", "lower", "upper"}:
             folded.add(n.targets[0].id)
     if not folded:
-        raise AnalysisError("R3.2 anchor: _find_tag_entry has no case-folded working copy")
+        ctx.ok("R3.2", "_find_tag_entry keeps no case-folded copy of the tag text: every slice is of the text as written", loc(fte, fte.node))
     rets = [r for r in walk_no_nested(fte.node) if isinstance(r, ast.Return) and isinstance(r.value, ast.Tuple)
             and len(r.value.elts) == 3]
     ctx.floor("R3.2", "3-tuple returns of _find_tag_entry", len(rets), 2)
@@ -158,6 +158,62 @@ def run(ctx):
                   "would come back lower-cased instead of verbatim" % sorted(folded),
                   desc="remainder `%s` is original-case text" % norm(rem))
 
+
+    # ---------------- R3.4: positions are taken on the text as written
+    ctx.rule("R3.4", "the resolver takes no position (find / len / slice / split) on a case-folded copy of the tag (case folding can change the length)")
+    resolver = [hs.methods.get(nm) for nm in ("_find_tag_entry", "_find_tag_subfunction", "_validate_remaining_terms")]
+    if any(f is None for f in resolver):
+        raise AnalysisError("R3.4 anchors of the tag resolver vanished")
+    folded_of = {}
+    for f in resolver:
+        rdf = ReachingDefs(f)
+        fs = set()
+        for n in walk_no_nested(f.node):
+            if isinstance(n, ast.Assign) and isinstance(n.targets[0], ast.Name) and \
+                    normalisation(rdf, n.value, n) & {"casefold", "lower", "upper"}:
+                fs.add(n.targets[0].id)
+        folded_of[f] = fs
+    changed = True
+    while changed:          # a parameter that receives a folded argument inside the resolver is folded
+        changed = False
+        for f in resolver:
+            for c in walk_no_nested(f.node):
+                if isinstance(c, ast.Call):
+                    for g in resolver:
+                        if call_name(c) == g.name:
+                            ps = g.params()[1:] if g.params() and g.params()[0] == "self" else g.params()
+                            for i_, a_ in enumerate(c.args):
+                                if isinstance(a_, ast.Name) and a_.id in folded_of[f] and i_ < len(ps) and ps[i_] not in folded_of[g]:
+                                    folded_of[g].add(ps[i_])
+                                    changed = True
+    n_pos = 0
+    for f in resolver:
+        ctx.saw(f)
+        fs = folded_of[f]
+        for x in walk_no_nested(f.node):
+            hit = None
+            if isinstance(x, ast.Call) and isinstance(x.func, ast.Attribute) and x.func.attr in ("find", "rfind", "index", "rindex", "split", "rsplit", "partition") \
+                    and isinstance(x.func.value, ast.Name):
+                n_pos += 1
+                if x.func.value.id in fs:
+                    hit = "%s.%s()" % (x.func.value.id, x.func.attr)
+            elif isinstance(x, ast.Call) and isinstance(x.func, ast.Name) and x.func.id == "len" and x.args and isinstance(x.args[0], ast.Name):
+                n_pos += 1
+                if x.args[0].id in fs:
+                    hit = "len(%s)" % x.args[0].id
+            elif isinstance(x, ast.Subscript) and isinstance(x.slice, ast.Slice) and isinstance(x.value, ast.Name):
+                n_pos += 1
+                # V[-k:] of a constant suffix is position-free
+                if x.value.id in fs and not (x.slice.upper is None and isinstance(x.slice.lower, ast.UnaryOp)):
+                    hit = "%s[...]" % x.value.id
+            if hit:
+                ctx.violation("R3.4", f.qualname, x, loc(f, x),
+                              "`%s` takes a position on the case-folded copy `%s`; positions are then applied to the text as written "
+                              "(the remainder slice, the offsets in issues). casefold() changes the length of `ß`, `ﬁ`, `İ`…, so "
+                              "`Maße/Größe/12 cm` loses characters of its value and `Straße` gets an end offset outside the text"
+                              % (norm(x)[:40], hit.split("(")[-1].split(")")[0].split("[")[0].split(".")[0] if False else sorted(fs)[0]))
+    ctx.ok("R3.4", "%d position-taking expressions in the resolver, none on a case-folded copy" % n_pos, "")
+    ctx.floor("R3.4", "position-taking expressions in the tag resolver", n_pos, 6)
 
     ctx.rule("R3.3", "namespace prefixes are removed by length, never with the character-set strip family")
     strip_family_lint(ctx, "R3.3", ["schema.hed_schema", "models.hed_tag", "schema.hed_schema_group"])
